@@ -3,6 +3,7 @@
   are runtime facts observed by the harness, not theorems).
 -/
 import Stun.Proofs.ClientHistory
+import Stun.Proofs.ClientSync
 namespace Stun.C15
 open Stun Stun.Client Stun.ClientProofs
 
@@ -62,5 +63,40 @@ theorem close_establishes (c : Client) (hc : c.closed = false) :
     (c.close).1.closed = true ∧ (c.close).1.agent.closed = true := by
   obtain ⟨b1, b2, _, _, _⟩ := (close_spec c).2 hc
   exact ⟨b1, b2⟩
+
+/-- finality for whole histories: from a closed client with a closed agent, *every* continuation — any number of
+    Start, deliver, tick, clock, failWrite, SetRTO and Close operations in any order — emits nothing (no handler
+    invocation, no write, no connection close) and leaves the client closed -/
+theorem closed_forever (ops : List COp) : ∀ (c : Client), c.closed = true → c.agent.closed = true →
+    allOuts (run c ops).2 = [] ∧ (run c ops).1.closed = true ∧ (run c ops).1.agent.closed = true := by
+  induction ops with
+  | nil => intro c hc ha; exact ⟨rfl, hc, ha⟩
+  | cons op r ih =>
+    intro c hc ha
+    obtain ⟨o1, o2, o3⟩ := no_output_after_close c hc ha op
+    obtain ⟨i1, i2, i3⟩ := ih (c.step op).1 o2 o3
+    refine ⟨?_, i2, i3⟩
+    simp only [run, allOuts, List.flatMap_cons, o1, List.nil_append]
+    exact i1
+
+/-- the property's history form: whatever happened before (`pre`), once Close has been called on an open client,
+    the rest of the history (`post`, which may contain further Close calls) emits nothing; in particular the
+    connection is closed at most once in the whole history and no handler runs after Close returned -/
+theorem nothing_after_close (c : Client) (pre post : List COp) (hopen : (run c pre).1.closed = false) :
+    allOuts (run (run c (pre ++ [.close])).1 post).2 = [] := by
+  have e : (run c (pre ++ [.close])).1 = ((run c pre).1.close).1 := by
+    rw [run_append]; rfl
+  rw [e]
+  obtain ⟨b1, b2⟩ := close_establishes (run c pre).1 hopen
+  exact (closed_forever post _ b1 b2).1
+
+/-- every Start after Close returns ErrClientClosed, at any later point of any history -/
+theorem start_after_close_rejected (c : Client) (ops : List COp) (hc : c.closed = true) (ha : c.agent.closed = true)
+    (id : TID) (raw : Bytes) (h : Option Nat) :
+    ((run c ops).1.step (.start id raw h)).2.1 = some .clientClosed := by
+  have hcl := (closed_forever ops c hc ha).2.1
+  have e : (run c ops).1.step (.start id raw h) = ((run c ops).1, some .clientClosed, []) :=
+    after_close_rejects _ hcl id raw h
+  rw [e]
 
 end Stun.C15
